@@ -383,9 +383,12 @@ func (w *W) c03(groups [][]*driver.Bound) {
 				SetMapRotation(0)
 				// decode direction: every permutation of map entries the reference encoder can produce
 				perms := permutations(min(maxMapLen(rv), 3))
+				// ... and, once more, with the fields of every message in descending index order (fields are tagged, not ordered)
+				perms = append(perms, perms[0])
 				for pi, p := range perms {
 					p := p
 					var ref refcodec.Enc
+					refcodec.MessageFieldsDescending = pi == len(perms)-1
 					refcodec.EncodeRec(&ref, rv, func(n int) []int {
 						if n == len(p) {
 							return p
@@ -403,6 +406,7 @@ func (w *W) c03(groups [][]*driver.Bound) {
 						// smaller maps: rotate by the permutation ordinal
 						return refcodec.Rotation(pi % max(n, 1))(n)
 					})
+					refcodec.MessageFieldsDescending = false
 					for _, d := range decoders {
 						out := b.New()
 						ran, o := d.run(out, ref.B)
@@ -412,6 +416,7 @@ func (w *W) c03(groups [][]*driver.Bound) {
 						w.res.Transitions++
 						ci := caseInfo(b, rv)
 						ci["permutation"] = p
+						ci["message_fields_descending"] = pi == len(perms)-1
 						ci["bytes"] = vlib.Hex(ref.B)
 						if o.Panicked || o.Err != nil {
 							w.report(fmt.Sprintf("C03|decode-rejects-conformant|%s|%s|%s", d.name, b.Case.Class, failKind(o)),
